@@ -19,8 +19,11 @@ SOURCES = {
     "status": ("uids", "num_ctx_switches"),
     # the third memoised source has no front-end memoised reader: two platform-level ones
     "smaps": ("memory_full_info", "memory_maps"),
+    # statm is memoised only by the front end (memory_info); memory_percent() goes through it
+    "statm": ("memory_info", "memory_percent"),
 }
-ASDICT = {"stat": ["cpu_num", "cpu_times"], "status": ["num_ctx_switches", "uids"], "smaps": ["memory_maps"]}
+ASDICT = {"stat": ["cpu_num", "cpu_times"], "status": ["num_ctx_switches", "uids"], "smaps": ["memory_maps"],
+          "statm": ["memory_info", "memory_percent"]}
 
 
 def setver(w, v):
@@ -35,6 +38,7 @@ def setver(w, v):
         p.has_rollup = False          # memory_full_info() then sums the smaps listing
     p.maps[0].kb["Rss"] = v
     p.maps[0].kb["Pss"] = v
+    p.statm = (100, v, 20, 5, 0, 30, 0)
     w.ver = v
 
 
@@ -51,6 +55,10 @@ def version_of(method, val):
         return int(val.pss) // 1024
     if method == "memory_maps":
         return int(val[0].rss) // 1024
+    if method == "memory_info":
+        return int(val.rss) // 4096
+    if method == "memory_percent":
+        return int(round(val * 1024000 / 100.0 / 4096))      # MemTotal of the world is 1000 kB
     if method == "as_dict":
         k, v = sorted(val.items())[0]
         return version_of(k, v)
@@ -176,7 +184,7 @@ def thread_chunk(job):
     seed, prog_i, bound, limit = job
     w, ps = template()
     rnd = random.Random(seed)
-    src = ("stat", "status", "smaps")[seed % 3]
+    src = ("stat", "status", "smaps", "statm")[seed % 4]
     mF, mP = SOURCES[src]
     progs = PROGRAMS[prog_i]
     traces = []
